@@ -3,6 +3,7 @@ import Driver.Trace
 import Driver.Misc
 import Driver.Json
 import Driver.Promela
+import Driver.Lua
 open Driver
 
 partial def loop (h : IO.FS.Stream) (out : IO.FS.Stream) (f : String → String) : IO Unit := do
@@ -18,7 +19,8 @@ def commands : List (String × (String → String)) := [
   ("legal", legal),
   ("nest", nest),
   ("json", json),
-  ("promela", promela)
+  ("promela", promela),
+  ("lua", lua)
 ]
 
 def main (args : List String) : IO UInt32 := do
